@@ -1165,4 +1165,158 @@ theorem GInv.init {s : QSys} (h : s.Init) : GInv (GSys.init s) := by
     rw [h2 hs]
     exact PcOK_begin c.op
 
+/-! ## timing invariant (needs a monotone clock) -/
+
+/-- per-client timing facts: a started client arrived no later than now; the ids a consumer is about to pop are old
+ids whose scores (as long as they are still queued) are not in the future -/
+structure TC (pQ : ExtTreeMap Nat Int) (fresh : Nat) (clock : Int) (c : QClient) : Prop where
+  arr : c.started = true → c.arrival ≤ clock
+  pend : c.started = true → ∀ got e ids, c.pc = .popExec got e ids →
+    ∀ id ∈ ids, id < fresh ∧ ∀ r, pQ[id]? = some r → r ≤ clock
+
+theorem TC.mono {pQ pQ' : ExtTreeMap Nat Int} {fresh fresh' : Nat} {clock clock' : Int} {c : QClient}
+    (h : TC pQ fresh clock c) (hQ : ∀ (id : Nat) (r : Int), id < fresh → pQ'[id]? = some r → pQ[id]? = some r)
+    (hf : fresh ≤ fresh') (hc : clock ≤ clock') : TC pQ' fresh' clock' c := by
+  refine ⟨fun hs => Int.le_trans (h.arr hs) hc, ?_⟩
+  intro hs got e ids hpc id hid
+  obtain ⟨h1, h2⟩ := h.pend hs got e ids hpc id hid
+  exact ⟨Nat.lt_of_lt_of_le h1 hf, fun r hr => Int.le_trans (h2 r (hQ id r h1 hr)) hc⟩
+
+theorem QOp.begin_ne_popExec (op : QOp) (got : List Probe) (e : Nat) (ids : List Nat) : op.begin ≠ .popExec got e ids := by
+  cases op with
+  | enqueue p a b => cases a <;> cases b <;> simp only [QOp.begin] <;> (try split) <;> simp
+  | popMany n => simp only [QOp.begin]; split <;> simp
+  | _ => simp [QOp.begin]
+
+theorem TC.start {pQ : ExtTreeMap Nat Int} {fresh : Nat} {clock : Int} {c : QClient}
+    (h : TC pQ fresh clock c) : TC pQ fresh clock (c.start clock) := by
+  unfold QClient.start
+  by_cases hs : c.started = true
+  · simp only [hs, if_true]; exact h
+  · simp only [hs]
+    refine ⟨fun _ => Int.le_refl _, ?_⟩
+    intro _ got e ids hpc
+    exact absurd hpc (QOp.begin_ne_popExec _ _ _ _)
+
+theorem popNext_ne_popExec (n : Int) (got : List Probe) (e : Nat) (items : List (Probe × GoTime)) (clock : Int)
+    (got' : List Probe) (e' : Nat) (ids : List Nat) : popNext n got e items clock ≠ .popExec got' e' ids := by
+  unfold popNext
+  split
+  · simp
+  · simp only; split <;> simp
+
+/-- **timing invariant** -/
+structure TInv (g : GSys) : Prop where
+  clients : ∀ (i : Nat) (c : QClient), g.sys.clients[i]? = some c → TC g.sys.store.pQueue g.sys.fresh g.sys.clock c
+  popT : ∀ d ∈ g.pops, ∃ r, d.ready = some r ∧ r ≤ d.clk ∧ d.clk ≤ g.sys.clock
+
+theorem TInv.cur {g : GSys} (h : TInv g) {i : Nat} {c : QClient} (hc : g.sys.cur i = some c) :
+    TC g.sys.store.pQueue g.sys.fresh g.sys.clock c := by
+  obtain ⟨c0, h0, _, rfl⟩ := QSys.cur_some hc
+  exact (h.clients i c0 h0).start
+
+theorem tclients_set {g : GSys} (h : TInv g) {i : Nat} {c' : QClient} {pQ' : ExtTreeMap Nat Int} {fresh' : Nat}
+    (hQ : ∀ (id : Nat) (r : Int), id < g.sys.fresh → pQ'[id]? = some r → g.sys.store.pQueue[id]? = some r)
+    (hf : g.sys.fresh ≤ fresh') (hc' : TC pQ' fresh' g.sys.clock c') :
+    ∀ (j : Nat) (cj : QClient), (g.sys.clients.set i c')[j]? = some cj → TC pQ' fresh' g.sys.clock cj := by
+  intro j cj hj
+  rw [List.getElem?_set] at hj
+  by_cases hij : i = j
+  · subst hij
+    simp only [if_true] at hj
+    split at hj
+    · cases hj; exact hc'
+    · cases hj
+  · simp only [hij, if_false] at hj
+    exact (h.clients j cj hj).mono hQ hf (Int.le_refl _)
+
+theorem TC.ofNoExec {pQ : ExtTreeMap Nat Int} {fresh : Nat} {clock : Int} {c : QClient}
+    (harr : c.arrival ≤ clock) (hpc : ∀ x y z, c.pc ≠ .popExec x y z) : TC pQ fresh clock c :=
+  ⟨fun _ => harr, fun _ got e ids h => absurd h (hpc got e ids)⟩
+
+theorem TInv.gstep {g g' : GSys} (hG : GInv g) (h : TInv g) (hs : GStep g g') : TInv g' := by
+  cases hs with
+  | same => exact h
+  | setc i c c' hc hop hpc hst harr hpop =>
+    refine ⟨?_, h.popT⟩
+    have hc0 := h.cur hc
+    refine tclients_set h (fun _ _ _ hr => hr) (Nat.le_refl _) ⟨fun _ => ?_, fun _ got e ids hpc' => ?_⟩
+    · rw [harr]; exact hc0.arr (QSys.cur_started hc)
+    · rw [hpc] at hpc'; exact hc0.pend (QSys.cur_started hc) got e ids hpc'
+  | other i c c' st' hc hnp hI hQ hcons hop hpc1 hpc2 hst harr hpop =>
+    refine ⟨?_, h.popT⟩
+    show ∀ (j : Nat) (cj : QClient), (g.sys.clients.set i c')[j]? = some cj → TC st'.pQueue g.sys.fresh g.sys.clock cj
+    rw [hQ]
+    exact tclients_set h (fun _ _ _ hr => hr) (Nat.le_refl _) (TC.ofNoExec (by rw [harr]; exact Int.le_refl _) hpc2)
+  | enq i c c' p after before hc hcop hcpc hop hpc hst harr hpop =>
+    refine ⟨?_, h.popT⟩
+    show ∀ (j : Nat) (cj : QClient), (g.sys.clients.set i c')[j]? = some cj →
+      TC (g.sys.store.pQueue.insert g.sys.fresh _) (g.sys.fresh + 1) g.sys.clock cj
+    refine tclients_set h ?_ (Nat.le_succ _) (TC.ofNoExec (by rw [harr]; exact Int.le_refl _) (by rw [hpc]; intro x y z hh; cases hh))
+    intro id r hid
+    rw [ExtTreeMap.getElem?_insert]
+    have : ¬ g.sys.fresh = id := by omega
+    simp only [compare_eq_iff_eq, this, if_false]
+    exact fun hh => hh
+  | range i c c' n got e hc hcop hcpc hop hpc hst harr hpop =>
+    refine ⟨?_, h.popT⟩
+    have hc0 := h.cur hc
+    refine tclients_set h (fun _ _ _ hr => hr) (Nat.le_refl _) ⟨fun _ => by rw [harr]; exact Int.le_refl _, ?_⟩
+    intro _ got' e' ids hpc' id hid
+    rw [hpc] at hpc'
+    split at hpc'
+    · cases hpc'
+    · cases hpc'
+      obtain ⟨r, hr, hb⟩ := mem_zrangeUpTo hid
+      have hra : r ≤ c.arrival := hb _ rfl
+      have hac := hc0.arr (QSys.cur_started hc)
+      refine ⟨hG.queueLt (mem_iff_getElem?_some.2 ⟨r, hr⟩), ?_⟩
+      intro r' hr'
+      rw [hr] at hr'; cases hr'
+      exact Int.le_trans hra hac
+  | exec i c c' n got e ids hc hcop hcpc hop hpc hst harr hpop =>
+    have hc0 := h.cur hc
+    refine ⟨?_, ?_⟩
+    · show ∀ (j : Nat) (cj : QClient), (g.sys.clients.set i c')[j]? = some cj →
+        TC (g.sys.store.popBatch ids).1.pQueue g.sys.fresh g.sys.clock cj
+      refine tclients_set h ?_ (Nat.le_refl _) (TC.ofNoExec (by rw [harr]; exact Int.le_refl _) (by rw [hpc]; exact popNext_ne_popExec _ _ _ _ _))
+      intro id r _
+      rw [popBatch_pQueue]
+      split
+      · intro hh; cases hh
+      · exact fun hh => hh
+    · intro d hd
+      rcases List.mem_append.1 hd with hd | hd
+      · exact h.popT d hd
+      · obtain ⟨id, hid, pe, hpe, rfl⟩ := mem_popRecs.1 hd
+        have hq : id ∈ g.sys.store.pQueue := (hG.cons.prb id).2 (mem_iff_getElem?_some.2 ⟨pe, hpe⟩)
+        obtain ⟨r, hr⟩ := mem_iff_getElem?_some.1 hq
+        exact ⟨r, hr, (hc0.pend (QSys.cur_started hc) got e ids hcpc id hid).2 r hr, Int.le_refl _⟩
+
+theorem TInv.tick {g : GSys} (h : TInv g) (d : Int) (hd : 0 ≤ d) : TInv (g.tick d) := by
+  refine ⟨fun i c hc => (h.clients i c hc).mono (fun _ _ _ hr => hr) (Nat.le_refl _) ?_, ?_⟩
+  · show g.sys.clock ≤ g.sys.clock + d
+    omega
+  · intro p hp
+    obtain ⟨r, h1, h2, h3⟩ := h.popT p hp
+    refine ⟨r, h1, h2, ?_⟩
+    show p.clk ≤ g.sys.clock + d
+    omega
+
+/-- all tick amounts of an event list are non-negative: the clock is monotone -/
+def Monotone (es : List QSysEv) : Prop := ∀ e ∈ es, e.ticksOk (fun d => 0 ≤ d)
+
+theorem GTInv.run {g : GSys} (hG : GInv g) (hT : TInv g) (es : List QSysEv) (hm : Monotone es) : TInv (g.run es) :=
+  (GSys.run_induction (fun g => GInv g ∧ TInv g) (fun d => 0 ≤ d) (fun _ h => h.1.okFor)
+    (fun _ _ h hs => ⟨h.1.gstep hs, TInv.gstep h.1 h.2 hs⟩) (fun _ d h hd => ⟨h.1.tick d, h.2.tick d hd⟩) g es hm ⟨hG, hT⟩).2
+
+theorem TInv.init {s : QSys} (h : s.Init) (harr : ∀ c ∈ s.clients, c.started = true → c.arrival ≤ s.clock) : TInv (GSys.init s) := by
+  refine ⟨?_, fun d hd => (by cases hd)⟩
+  intro i c hc
+  have hm := List.mem_of_getElem? hc
+  refine ⟨harr c hm, ?_⟩
+  intro hs got e ids hpc
+  rw [(h.clients c hm).2 hs] at hpc
+  exact absurd hpc (QOp.begin_ne_popExec _ _ _ _)
+
 end Swat4
